@@ -626,6 +626,34 @@ def _eng_cases(rng, tier):
         out.append({"kind": "engine", "line": "", "cfg": cfg, "script": [list(x) for x in script], "evs": evs, "qs": qs, "qtexts": qtexts,
                     "mem_keys": mem_keys,
                     "show": f"engine topk-unflushed-shard {cfg}: {len(evs)} events, " + "; ".join(qtexts)})
+    # targeted (the configuration in which a seeded change showed): three shards, ONE busy context whose 60 events are
+    # flushed by automatic rotation (so at most two shards ever get a segment), then fresh contexts with two unflushed
+    # rows each, some of them on a shard without any segment; scoped and unscoped ordered pages with OFFSET
+    for i in range(1 if tier == "quick" else 20):
+        cfg = dict(fill_factor=3, event_per_zone=1, shards=3, segments_per_merge=2)
+        script = [("cmd", f"DEFINE t FIELDS {_E.FIELDS}")]
+        evs = []
+        nb = rng.range(55, 70)
+        for j in range(nb):
+            script.append(("cmd", f'STORE t FOR busy{i} PAYLOAD {{"k": {1000 + j}, "g": "x"}}')); evs.append({"k": 1000 + j})
+        script += [("cmd", "FLUSH"), ("quiesce",)]
+        mem_keys = []
+        nq = rng.range(5, 7)
+        for q in range(nq):
+            for a in (1, 2):
+                k = 10 * q + a
+                mem_keys.append(k)
+                script.append(("cmd", f'STORE t FOR quiet{q} PAYLOAD {{"k": {k}, "g": "x"}}')); evs.append({"k": k})
+        qs, qtexts = [], []
+        for q in range(nq):
+            qs.append(("ordc", False, 1, 1, f"quiet{q}")); qtexts.append(f"QUERY t FOR quiet{q} ORDER BY k LIMIT 1 OFFSET 1")
+        for (n_, m_) in ((1, 1), (2, 1), (1, 3)):
+            qs.append(("ord", False, n_, m_, None)); qtexts.append(f"QUERY t ORDER BY k LIMIT {n_} OFFSET {m_}")
+        script += [("quiesce",), ("cmd", "QUERY t")] + _qblock(qtexts)
+        script += [("cmd", "FLUSH"), ("quiesce",), ("cmd", "QUERY t")] + _qblock(qtexts)
+        out.append({"kind": "engine", "line": "", "cfg": cfg, "script": [list(x) for x in script], "evs": evs, "qs": qs, "qtexts": qtexts,
+                    "mem_keys": mem_keys,
+                    "show": f"engine pages-from-segmentless-shard {cfg}: {len(evs)} events, " + "; ".join(qtexts[:3]) + " ..."})
     # targeted: many shards, only a few of them hold flushed segments; the smallest keys arrive for fresh contexts, most
     # of which live on shards that have NO segment at all (no entry in any zone plan) and stay in memory: ordered pages
     # with OFFSET must still be cut from those shards' memory
@@ -690,6 +718,16 @@ def _judge_query(spec, r, sel, selrows=None):
         exp = pool[m_:m_ + n_]
         if got != exp:
             return f"ORDER BY {field}{' DESC' if desc else ''} LIMIT {n_}: returned {got}, the first {n_} of the typed order are {exp}"
+        return None
+    if kind == "ordc":
+        # ORDER BY k LIMIT n OFFSET m scoped to one context (thr = the context id)
+        if r["status"] != 200:
+            return f"{spec}: status {r['status']} {r.get('message')}"
+        got = [x.get("k") for x in r["rows"]]
+        pool = sorted((x.get("k") for x in (selrows or []) if x.get("context_id") == thr), reverse=bool(desc))
+        exp = pool[m_:m_ + n_]
+        if got != exp:
+            return f"FOR {thr} ORDER BY k{' DESC' if desc else ''} LIMIT {n_} OFFSET {m_}: returned {got}, rows {m_}..{m_}+{n_} of the context's order are {exp}"
         return None
     if kind == "off":
         return f"OFFSET {m_} without LIMIT was answered with status 200" if r["status"] == 200 else None
